@@ -50,8 +50,13 @@ func (c *fctx) expr(e ast.Expr, want string) (string, string) {
 			return "[]", want
 		case x.Obj != nil && c.names[x.Obj] != "":
 			return c.names[x.Obj], c.types[x.Obj]
+		case x.Name == "iota" && x.Obj == nil:
+			return strconv.Itoa(c.iota), "Z"
 		case t.consts[x.Name] != nil: // package-level constant: defined once in the output
+			old := c.iota
+			c.iota = t.constIota[x.Name]
 			v, ty := c.expr(t.consts[x.Name], "")
+			c.iota = old
 			if !t.constDone[x.Name] {
 				t.constDone[x.Name] = true
 				t.constDefs = append(t.constDefs, "Definition "+x.Name+" : "+ty+" := "+v+".")
@@ -238,6 +243,10 @@ func (c *fctx) binary(x *ast.BinaryExpr) (string, string) {
 			return "Z.ltb " + paren(a) + " " + paren(b), "bool"
 		case ta == "Z" && tb == "Z":
 			return "Z.leb " + paren(a) + " " + paren(b), "bool"
+		case ta == "string" && tb == "string" && strict: // byte-wise lexicographic, as in Go
+			return "String.ltb " + paren(a) + " " + paren(b), "bool"
+		case ta == "string" && tb == "string":
+			return "String.leb " + paren(a) + " " + paren(b), "bool"
 		case ta == tb && t.isOpaque(ta): // ordered type parameter: one primitive, a < b is not (b <= a)
 			leb := t.svar(ta+"_leb", ta+" -> "+ta+" -> bool", x)
 			if strict {
